@@ -13,7 +13,8 @@ META = {
                    'helper reads and writes the same field with that field\'s modulus and offset.',
     'decided': 'constant and sign pairing of decomposition and recomposition; compareTo orders by signed seconds; negate writes only '
                'the sign; hour/minute composition 60*h+m with /60, %60; 15-minute step wraps above +16:00 to -16:00; helpers use '
-               'moduli year 100, month 12 (+1), day 31 (+1), hour 24, minute 60 on the matching getter/setter pair',
+               'moduli year 100, month 12 (+1), day 31 (+1), hour 24, minute 60 on the matching getter/setter pair, holding the '
+               'value in a local of the getter\'s own integer type',
     'not_decided': 'the numeric sweeps (every value in range round-trips)',
     'assumptions': ['clang 14 parser', 'ace_common::incrementMod/incrementModOffset as in the shim (d in [offset, m + offset))'],
 }
